@@ -249,7 +249,7 @@ import subprocess as _sp
 
 C05_DEFS = ["Literal", "Overlap", "Classes", "Dot", "Multibyte", "Anchors", "Alternation", "Fold", "PushPop", "String",
             "Return", "ReturnNested", "ReturnSelf", "IncludeFirst", "IncludeMiddle", "IncludeNested", "PopInRoot", "ReturnInRoot", "OptionalGroupPush",
-            "ElidedActions", "Possessive", "Repeat", "EmptyAlt", "NoWordBoundary", "EndAnchors", "FoldClass", "DotAll", "NonASCIILit", "NegClass"]
+            "ElidedActions", "NullableStar", "Possessive", "Repeat", "EmptyAlt", "NoWordBoundary", "EndAnchors", "FoldClass", "DotAll", "NonASCIILit", "NegClass"]
 
 GENPKG_DIR = "lexer/internal/zzverifgen"
 
